@@ -141,6 +141,15 @@ def execute(case):
             if loaded is not None:
                 s = builder.Session(loaded)
             log.append((i, "save_load", loaded is not None, seeds.digest(sorted((repr(k), repr(v)) for k, v in before.items()))))
+        elif op["k"] == "save":
+            # an intermediate save without restart (users save while they keep editing)
+            try:
+                d1 = s.project.read()
+                log.append((i, "save", seeds.digest(d1)))
+            except (KeyboardInterrupt, HarnessTimeout):
+                raise
+            except BaseException as e:
+                violations.append({"property": PROPERTY, "oracle": "save_raises", "exc": type(e).__name__, "detail": {"op": i, "msg": str(e)[:200]}})
         else:
             out = s.apply(op)
             probes["op:" + out.split(":")[0]] = probes.get("op:" + out.split(":")[0], 0) + 1
@@ -175,6 +184,8 @@ def generate(seed, i, tier="quick"):
             first = False
         else:
             ops += [builder.gen_op(r, w) for _ in range(n)]
+        if r.random() < 0.35:
+            ops.insert(len(ops) - r.randint(0, min(n, 6)), {"k": "save"})
         ops.append({"k": "save_load"})
     return {"property": PROPERTY, "world": "store", "ops": ops}
 
